@@ -1247,10 +1247,47 @@ fn damage(r: &mut Rng, x: &[u8]) -> Vec<u8> {
     if v.is_empty() {
         return v;
     }
-    match r.below(10) {
+    match r.below(13) {
         0 | 1 | 2 => {
             let c = r.below(v.len() as u64) as usize;
             v.truncate(c);
+        }
+        10 | 11 | 12 => {
+            // numbers and error positions: replace the text of a BYTE-LENGTH / SEQUENCE-NUMBER by
+            // something that is not a usize (too many digits, sign, blanks, multi-byte characters at
+            // every alignment), optionally behind a UTF-8 byte-order mark; drop a required ID next to
+            // a non-ASCII attribute
+            let s = String::from_utf8_lossy(&v).into_owned();
+            let mut t = s.clone();
+            let tags = ["<fx:BYTE-LENGTH>", "<fx:SEQUENCE-NUMBER>"];
+            let tag = *r.pick(&tags);
+            let occ: Vec<usize> = s.match_indices(tag).map(|(i, _)| i + tag.len()).collect();
+            if !occ.is_empty() && r.chance(3, 4) {
+                let i = *r.pick(&occ);
+                if let Some(e) = s[i..].find('<') {
+                    const TEXTS: &[&str] = &[
+                        "18446744073709551615", "18446744073709551616", "340282366920938463463374607431768211455",
+                        "9999999999999999999999999999999999999999999999999999999999999999", "+5", "-1", " 7", "7 ",
+                        "0x10", "", "8 \u{b5}s ", "\u{b0}", "1\u{20ac}", "\u{20ac}\u{20ac}1", "12\u{1f600}", "\u{e9}\u{e9}\u{e9}",
+                    ];
+                    t = format!("{}{}{}", &s[..i], r.pick(TEXTS), &s[i + e..]);
+                }
+            } else {
+                let occ: Vec<usize> = s.match_indices(" ID=\"").map(|(i, _)| i).collect();
+                if !occ.is_empty() {
+                    let i = *r.pick(&occ);
+                    if let Some(e) = s[i + 5..].find('"') {
+                        const ATTRS: &[&str] = &[" UNIT=\"\u{b0}\"", " U=\"\u{b5}\u{b5}\"", " X=\"a\u{20ac}\"", " N=\"\u{1f600}\""];
+                        t = format!("{}{}{}", &s[..i], r.pick(ATTRS), &s[i + 5 + e + 1..]);
+                    }
+                }
+            }
+            v = t.into_bytes();
+            if r.chance(1, 2) {
+                let mut b = vec![0xEF, 0xBB, 0xBF];
+                b.extend(v);
+                v = b;
+            }
         }
         8 | 9 => {
             // attribute names: misspell one keeping its length, prefix it, or put another attribute
